@@ -82,7 +82,11 @@ def tie_status():
         table = json.load(open(TIE_FILE))
     except OSError:
         return {}, {}
-    now = {n: hashlib.sha1(t.encode()).hexdigest() for n, t in translate.translate_all(os.environ.get("JS_REPO", "/repo"))}
+    import translate_types
+    repo = os.environ.get("JS_REPO", "/repo")
+    two = dict(translate.translate_all2(repo))
+    now = {n: hashlib.sha1((t + "|" + two.get(n, "")).encode()).hexdigest() for n, t in translate.translate_all(repo)}
+    now.update({"_types." + n: hashlib.sha1(t.encode()).hexdigest() for n, t in translate_types.translate_all(repo)})
     changed = {fn: row["model"] for fn, row in table.items() if now.get(fn) != row["sha1"]}
     return table, changed
 
@@ -143,7 +147,7 @@ def proof_step(prop, log):
     # source tie: the keyword functions this property's theorems are about must BE the regenerated
     # source (JS/Props/Tie.lean). Only functions whose translated term changed can break it.
     table, changed = tie_status()
-    relevant = sorted(fn for fn, row in table.items() if row["model"] in out["uses"])
+    relevant = sorted(fn for fn, row in table.items() if row["model"] in out["uses"])      # predicates: model "JS.TyFn.apply"
     out["tie"] = {"functions_with_tie_theorem": len(table), "relevant_to_this_property": relevant, "changed": sorted(changed)}
     if relevant and changed and not any(fn in changed for fn in relevant):
         # only functions this property's theorems do not depend on changed: their tie theorems (which
@@ -151,27 +155,34 @@ def proof_step(prop, log):
         out["tie"]["build"] = "not rebuilt: only functions irrelevant to this property changed (%s)" % ", ".join(sorted(changed))
     elif relevant:
         with BuildLock():
-            rc, txt = sh(["lake", "build", "JS.Props.Tie"], cwd=LEAN)
+            rc, txt = sh(["lake", "build", "JS.Props.Tie", "JS.Props.TieTypes"], cwd=LEAN)
         if rc != 0:
             hit = [fn for fn in relevant if fn in changed]
             out["tie"]["build"] = "failed"
             if hit:
                 out["broken"].append({"module": "JS.Props.Tie", "functions": hit,
-                                      "errors": (["tie_%s: the regenerated source of `%s` is no longer proved equal to the model's %s" % (fn, fn, changed[fn]) for fn in hit]
+                                      "errors": (["tie of %s: the regenerated source of `%s` is no longer proved equal to the model's %s" % (fn, fn, changed[fn]) for fn in hit]
                                                  + re.findall(r"error: (.*)", txt)[:6]),
                                       "log_tail": txt[-1500:]})
             elif not changed:
-                raise Infra("JS.Props.Tie does not build although no translated function changed:\n" + txt[-2000:])
+                # no translated function changed, yet the tie no longer checks: the regenerated TABLES it
+                # rests on did (which key is bound to which function: NoCrash.table_ok) — a broken obligation
+                out["broken"].append({"module": "JS.Props.Tie", "functions": [],
+                                      "errors": ["the source tie no longer checks although no translated function changed "
+                                                 "(regenerated keyword/type tables?)"] + re.findall(r"error: (.*)", txt)[:6],
+                                      "log_tail": txt[-1500:]})
         else:
             out["tie"]["build"] = "ok"
             audit = os.path.join(LEAN, ".lake", "audit_Tie.lean")
             with open(audit, "w") as f:
-                f.write("import JS.AuditCmd\nimport JS.Props.Tie\n#audit JS.Props.Tie\n")
+                f.write("import JS.AuditCmd\nimport JS.Props.Tie\nimport JS.Props.TieTypes\n#audit JS.Props.Tie\n")
             with BuildLock():
                 rc, txt = sh(["lake", "env", "lean", audit], cwd=LEAN)
             if rc != 0:
                 raise Infra("audit of JS.Props.Tie failed:\n" + txt[-2000:])
-            want = {"JS.Props.Tie.tie_%s" % fn for fn in relevant}
+            want = {"JS.Props.Tie.%s_%s" % (table[fn].get("thm", "tie"), fn) for fn in relevant if not fn.startswith("_types.")}
+            if any(fn.startswith("_types.") for fn in relevant):
+                want |= {"JS.Props.Tie.tyfn_is_source", "JS.Props.Tie.draft_types_have_source", "JS.Props.Tie.isType_is_source"}
             # … and their composition: the evaluator over the interpreted source IS the evaluator over the
             # model functions on every shaped schema (guarded with references, outright without)
             want |= {"JS.Props.Tie.evalStepSrc_eq_evalStep", "JS.Props.Tie.evalSrcG_eq_evalG", "JS.Props.Tie.evalSrc_eq_eval_reffree",
@@ -191,7 +202,7 @@ def proof_step(prop, log):
             missing = want - set(out["theorems"])
             if missing:
                 out["broken"].append({"module": "JS.Props.Tie", "errors": ["tie theorems missing: %s" % sorted(missing)]})
-            for m in ("JS.Props.Tie", "JS.Proofs.TieBase", "JS.Proofs.TieA", "JS.Proofs.TieB", "JS.Proofs.TieC", "JS.Proofs.TieCompose",
+            for m in ("JS.Props.Tie", "JS.Proofs.TieBase", "JS.Proofs.TieA", "JS.Proofs.TieB", "JS.Proofs.TieC", "JS.Proofs.TieCompose", "JS.Proofs.TieD", "JS.Proofs.Tie2J", "JS.Proofs.Tie2K", "JS.Proofs.TieTypes", "JS.Py.IR2", "JS.Py.Interp2", "JS.Props.TieTypes", "JS.Py.Pred",
                       "JS.Py.IR", "JS.Py.Interp", "JS.Py.EvalSrc"):
                 srcf = os.path.join(LEAN, *m.split(".")) + ".lean"
                 hit = FORBIDDEN.search(strip_comments(open(srcf).read()))
